@@ -111,3 +111,96 @@ class CallGraph:
                     seen[k] = t.ctx()
                     work.append(t.ctx())
         return seen
+
+
+    # ------------------------------------------------- parameter mutation
+    _SAFE_EXTERNALS = {'str', 'len', 'isinstance', 'repr', 'format', 'bool',
+                       'int', 'hasattr', 'getattr', 'id', 'type', 'print',
+                       'bytes', 'sorted', 'list', 'tuple', 'set', 'dict',
+                       'enumerate', 'zip', 'iter', 'min', 'max', 'any',
+                       'all', 'sum', '__init__', 'join', 'hex'}
+    _PURE_METHODS = {
+        'get', 'keys', 'values', 'items', 'index', 'count', 'startswith',
+        'endswith', 'decode', 'encode', 'upper', 'lower', 'strip', 'rstrip',
+        'lstrip', 'split', 'rsplit', 'join', 'format', 'match', 'search',
+        'group', 'end', 'start', 'is_error', 'ready', 'locked', 'find',
+        'getvalue', 'tobytes', 'isdigit', 'fileno', 'getpeername', 'copy'}
+
+    def mutates_param(self, ctx: Ctx, pname: str, depth: int = 0,
+                      _stack=None) -> bool:
+        """May the function change the state of the object bound to
+        parameter `pname` (attribute / item assignment, mutating method,
+        or handing it to something that may)?  Storing the reference is not
+        a mutation."""
+        key = ctx.key() + (pname,)
+        memo = self.__dict__.setdefault('_mut', {})
+        if key in memo:
+            return memo[key]
+        _stack = _stack or set()
+        if key in _stack:
+            return False
+        if depth > 4:
+            return True
+        _stack = _stack | {key}
+        f = ctx.func
+        if ctx.func.module.name.startswith('slimta.logging'):
+            memo[key] = False
+            return False
+        out = False
+        for n in walk_own(f.node):
+            tg = []
+            if isinstance(n, ast.Assign):
+                tg = n.targets
+            elif isinstance(n, (ast.AugAssign, ast.AnnAssign)):
+                tg = [n.target]
+            elif isinstance(n, ast.Delete):
+                tg = n.targets
+            for t in tg:
+                for x in ast.walk(t):
+                    if isinstance(x, (ast.Attribute, ast.Subscript)) and \
+                            isinstance(x.value, ast.Name) and \
+                            x.value.id == pname:
+                        out = True
+            if out:
+                break
+            if isinstance(n, ast.Call):
+                fn = n.func
+                if isinstance(fn, ast.Attribute) and \
+                        isinstance(fn.value, ast.Name) and \
+                        fn.value.id == pname:
+                    res = self.r.resolve_call(n, ctx)
+                    if res.targets and not res.externals:
+                        for t in res.targets:
+                            if self.self_writes(t.ctx()):
+                                out = True
+                    elif fn.attr not in self._PURE_METHODS:
+                        out = True
+                for i, a in enumerate(n.args):
+                    if isinstance(a, ast.Name) and a.id == pname:
+                        res = self.r.resolve_call(n, ctx)
+                        for t in res.targets:
+                            ps = list(t.func.params)
+                            if t.func.kind in ('method', 'classmethod') and \
+                                    t.self_cls is not None and ps:
+                                ps = ps[1:]
+                            if i < len(ps):
+                                if self.mutates_param(t.ctx(), ps[i],
+                                                      depth + 1, _stack):
+                                    out = True
+                            else:
+                                out = True
+                        for q in res.externals:
+                            last = q.rpartition('.')[2].replace('()', '')
+                            if last not in self._SAFE_EXTERNALS and \
+                                    not last[:1].isupper():
+                                out = True
+                        if res.unresolved:
+                            out = True
+                for k in n.keywords:
+                    if isinstance(k.value, ast.Name) and k.value.id == pname:
+                        out = True
+            if out:
+                break
+        if len(_stack) == 1:
+            memo[key] = out
+        return out
